@@ -204,3 +204,57 @@ func checkImportsExplicit(c *Ctx, rule string, gen *packages.Package) {
 	}
 	c.Analysed("templates with an import block", roots)
 }
+
+// checkExtraSchemaImports: the anonymous objects of a definition that are given a type of their
+// own (ExtraSchemas) are written into the definition's file. The imports of that file are
+// collected by findImports: it must be applied to the extra schemas as well as to the
+// definition, or a package only they refer to (x-go-type with an import) is missing.
+func checkExtraSchemaImports(c *Ctx, rule string, gen *packages.Package) {
+	c.Rule(rule, "where a GenDefinition is assembled, findImports is applied to the definition's schema and to each of its extra schemas", 1)
+	info := gen.TypesInfo
+	n := 0
+	for _, fd := range load.AllFuncs(gen) {
+		if fd.Body == nil {
+			continue
+		}
+		var lit *ast.CompositeLit
+		ast.Inspect(fd.Body, func(m ast.Node) bool {
+			if cl, ok := m.(*ast.CompositeLit); ok && goan.NamedName(info.TypeOf(cl)) == "GenDefinition" {
+				for _, el := range cl.Elts {
+					if kv, ok := el.(*ast.KeyValueExpr); ok && goan.IsIdent(kv.Key, "Imports") {
+						lit = cl
+					}
+				}
+			}
+			return true
+		})
+		if lit == nil {
+			continue
+		}
+		n++
+		overExtras := false
+		ast.Inspect(fd.Body, func(m ast.Node) bool {
+			rs, ok := m.(*ast.RangeStmt)
+			if !ok {
+				return true
+			}
+			if se, ok := ast.Unparen(rs.X).(*ast.SelectorExpr); !ok || se.Sel.Name != "ExtraSchemas" {
+				return true
+			}
+			ast.Inspect(rs.Body, func(k ast.Node) bool {
+				if call, ok := k.(*ast.CallExpr); ok {
+					if fn := goan.Callee(info, call); fn != nil && fn.Name() == "findImports" {
+						overExtras = true
+					}
+				}
+				return true
+			})
+			return true
+		})
+		c.Check(overExtras, rule, "generator."+load.FuncName(fd)+" › imports of the extra schemas", c.posOf(gen, lit.Pos()), "findImports inside a range over ExtraSchemas",
+			"the imports of a definition's file are collected from the definition's own schema only: an anonymous object lifted into a type of its own (items of an array of objects) that refers to an imported package (x-go-type with an import) leaves the file without that import, and the generated model does not build (`undefined: <alias>`)")
+	}
+	if n == 0 {
+		c.Anchor(rule, "generator › GenDefinition{… Imports: …}", "not found")
+	}
+}
